@@ -49,9 +49,9 @@ PLAN = {
     "C07": {"runs": [seq("c07", 240, 6000)],
             "explanation": "refinement of the slot-keyed store to a plain map with per-entry expiry, for every hash function and every op sequence"},
     "C09": {"runs": [seq("c09", 200, 4000), eng("fo", "c04", 150, 3000), eng("inval", "c15", 100, 1000)]},
-    "C10": {"runs": [seq("c10", 200, 5000), eng("fo", "c06", 120, 2000)],
+    "C10": {"runs": [seq("c10", 200, 5000), eng("fo", "c06", 120, 2000), seq("c11", 120, 1500)],
             "trusted_extra": ["float64 evaluation of the jitter product is idealised by exact rationals; the correspondence allows |T|*2^-40+1 ns slack"]},
-    "C11": {"runs": [seq("c11", 200, 3000), eng("xfer", "c13", 40, 400), eng("linz", "c08cleanup", 800, 8000)]},
+    "C11": {"runs": [seq("c11", 200, 3000), eng("xfer", "c13", 40, 400), eng("linz", "c08cleanup", 800, 8000), eng("conserve", "c11all", 300, 4000)]},
     "C12": {"runs": [seq("c12", 200, 3000)],
             "trusted_extra": ["float64 evaluation of n*frac is idealised by exact rationals; one entry of slack only within 2^-20 of an integer"]},
     "C18": {"runs": [seq("c07", 150, 3000), seq("c12", 80, 1000), eng("fo", "c02", 150, 3000), eng("linz", "c08", 600, 20000), eng("linz", "c18del", 800, 8000), eng("conserve", "c18all", 200, 4000)]},
